@@ -73,6 +73,10 @@ def _unopt(v):
     return SV(v.ty.inner, v.t[1:]) if isinstance(v.ty, TOpt) else v
 
 
+def ite_any(c, a, b):
+    return ite(c, a, b)
+
+
 class SpecEval:
     def __init__(self, world, engine):
         self.W = world
@@ -337,6 +341,19 @@ class SpecEval:
                 v = self.sev(e.args[0], cx)
                 c = self.sev(e.args[1], cx)
                 return mk_bool(self.isinstance_term(v, c.py.obj))
+            if n == 'hasattr' and n not in cx.env:
+                v = self.sev(e.args[0], cx)
+                attr_ = e.args[1].value
+                if not isinstance(v.ty, TObj):
+                    raise Unsupported('spec hasattr on %r' % (v.ty,))
+                from . import builtins_model as _bm
+                conds = []
+                for gk, (what, classes) in self.E.attr_candidates(v, attr_, []).items():
+                    g = z3.Or([cls_of(v.term) == self.W.class_id(d) for d in classes])
+                    if gk[0] == 'field' and what[0] in _bm.OPTIONAL_FIELDS:
+                        g = z3.And(g, z3.Select(cx.heap.get(cx.heap.present_key(what[0]))[0], v.term))
+                    conds.append(g)
+                return mk_bool(z3.Or(conds) if conds else z3.BoolVal(False))
             if n == 'typed':
                 # typed(x, 'type expr'): declares the type of an otherwise untyped name (lemma parameters)
                 return self.sev(e.args[0], cx)
@@ -644,7 +661,21 @@ class SpecEval:
             c2 = SpecCtx(env, cx.heap, env, cx.old_heap, cx.st, Frame(fn, c_inl))
             c2.facts = cx.facts
             return self.sev(body, c2)
-        key = 'pure_' + name + '_' + '_'.join(sortname(s_) for a in allargs for s_ in a.ty.comps())
+        for ai, a in enumerate(args):
+            if isinstance(a.ty, TTuple):
+                items = tuple_items(a)
+                for ii, it in enumerate(items):
+                    if isinstance(it.ty, TOpt):
+                        none_t = mk_tuple(items[:ii] + [mk_none()] + items[ii + 1:])
+                        val_t = mk_tuple(items[:ii] + [SV(it.ty.inner, it.t[1:])] + items[ii + 1:])
+                        return ite_any(it.t[0], self.pure_call(fn, recv, args[:ai] + [none_t] + args[ai + 1:], cx),
+                                       self.pure_call(fn, recv, args[:ai] + [val_t] + args[ai + 1:], cx))
+            if isinstance(a.ty, TOpt):
+                # an optional argument: the verdict on None and the verdict on a value are separate abstractions (so a narrowed value agrees)
+                none_case = self.pure_call(fn, recv, args[:ai] + [mk_none()] + args[ai + 1:], cx)
+                val_case = self.pure_call(fn, recv, args[:ai] + [SV(a.ty.inner, a.t[1:])] + args[ai + 1:], cx)
+                return ite_any(a.t[0], none_case, val_case)
+        key = 'pure_' + name + '_' + '_'.join(('Ref' if is_ref(a.ty) or isinstance(a.ty, TObj) else sortname(s_)) for a in allargs for s_ in a.ty.comps())
         rty = None
         # the interface-level UF: one function per method *name* (dynamic dispatch is inside it)
         for cand in [c] + [contracts.REG.get(k) for k in contracts.REG if k.endswith('.' + name)]:
